@@ -167,6 +167,9 @@ func (c *ctx) shipped(name string) (int, *bluemonday.Policy) {
 // is used again; if the kept bytes change, the case is written again with what they hold now.
 func (c *ctx) san(pid int, pol *bluemonday.Policy, in []byte) {
 	c.sanN++
+	if c.sanN%256 == 0 {
+		c.w.Flush() // what was found so far survives a crash of the library
+	}
 	if c.sanN%29 == 7 {
 		c.disturb()
 	}
